@@ -367,7 +367,7 @@ def tree_nodes(tree):
 
 
 CORRUPTION_KINDS = ['drop_key', 'retype', 'add_key', 'tag', 'dup_key', 'dashify',
-                    'alias', 'reverse', 'nest', 'empty']
+                    'alias', 'reverse', 'nest', 'empty', 'hoist_alias', 'hoist_alias']
 TAGS = ['!A', '!B', '!C', '!D', '!E', '!F', '!Unknown', '!!str', '!!int', '!!map',
         '!!python/object:os.system', '!Path', '!!timestamp']
 RETYPE_TEXTS = ['abc', '12', '1.5', 'true', 'null', '', '2001-02-03', 'yes', '0x1F',
@@ -442,6 +442,29 @@ def apply_corruption(tree, c):
                         parent['v'][slot[1]] = al
                     else:
                         parent['v'][slot[1]][1] = al
+    elif kind == 'hoist_alias':
+        # "define on first use": a mapping nested inside an item of the top-level
+        # collection is anchored there and appears again, by alias, as a later item of
+        # its own (PyYAML then hands the parent an object whose __init__ has not run yet)
+        if tree['t'] in ('seq', 'map') and tree['v']:
+            items = tree['v'] if tree['t'] == 'seq' else [v for _, v in tree['v']]
+            cands = []
+            for it in items:
+                if it['t'] == 'map':
+                    for _, v in it['v']:
+                        if v['t'] == 'map':
+                            cands.append(v)
+                        elif v['t'] == 'seq':
+                            cands.extend(x for x in v['v'] if x['t'] == 'map')
+            if cands:
+                src = cands[c['at'] % len(cands)]
+                if not src.get('anchor'):
+                    src['anchor'] = 'h{}'.format(c['at'] % 7)
+                al = {'t': 'alias', 'v': src['anchor']}
+                if tree['t'] == 'seq':
+                    tree['v'].append(al)
+                else:
+                    tree['v'].append([U.S('zz_hoisted'), al])
     elif kind == 'reverse':
         ms = [m for m in maps if len(m['v']) > 1]
         if ms:
